@@ -65,6 +65,14 @@ Theorem C09_unknown_fields_pass_through : forall sch r found,
 Proof. exact CX_passthrough_order. Qed.
 Print Assumptions C09_unknown_fields_pass_through.
 
+(* unknown fields do not reach the struct: a field whose key no field of the schema has - whatever it is called (Epoch,
+   Values, Order, the name of any Go field inside a nested struct ...) and wherever it stands - leaves the decoded record
+   as it is without it *)
+Theorem C09_unknown_field_does_not_reach_the_struct : forall sch k v pre post, ~ In k (map (C9G.fkey fd) (gschema sch)) ->
+  C9G.decode fd cval CX.czero cdecode (gschema sch) (pre ++ (k, v) :: post) = C9G.decode fd cval CX.czero cdecode (gschema sch) (pre ++ post).
+Proof. intros sch. exact (C9G.decode_ignores_unknown_field _ _ _ _ (gschema sch)). Qed.
+Print Assumptions C09_unknown_field_does_not_reach_the_struct.
+
 (* the two paragraph operations the encoder is built from (control/parse.go).  Set and Update keep the paragraph
    invariant of C07 (every listed field has a value, each field listed once); after Update a key listed by the other
    paragraph has the other's value and every other key keeps the receiver's; the receiver's fields come first in their
